@@ -21,6 +21,13 @@ pub trait Adapter {
         _discarding: bool,
     ) {
     }
+
+    /// Verification hook: observes the lexical state that `process` carries along
+    /// while it discards an over-long message (called after `verif_loop_state`).
+    #[cfg(microscpi_verif)]
+    #[doc(hidden)]
+    fn verif_scanner_state(&mut self, _kind: u8, _a: usize, _b: usize) {
+    }
 }
 
 /// Lexical state within a program message. It tells the newline that ends the
@@ -86,6 +93,19 @@ impl Scanner {
                     return false;
                 }
             }
+        }
+    }
+}
+
+#[cfg(microscpi_verif)]
+impl Scanner {
+    fn verif_code(&self) -> (u8, usize, usize) {
+        match *self {
+            Scanner::Plain => (0, 0, 0),
+            Scanner::Quoted(quote) => (1, quote as usize, 0),
+            Scanner::Hash => (2, 0, 0),
+            Scanner::Length(digits, length) => (3, digits as usize, length),
+            Scanner::Block(length) => (4, length, 0),
         }
     }
 }
@@ -257,6 +277,11 @@ pub trait Interface: ErrorHandler {
         loop {
             #[cfg(microscpi_verif)]
             adapter.verif_loop_state(&cmd_buf[..read_offset], proc_offset, read_offset, res_buf.len(), discarding.is_some());
+            #[cfg(microscpi_verif)]
+            if let Some(scanner) = &discarding {
+                let (kind, a, b) = scanner.verif_code();
+                adapter.verif_scanner_state(kind, a, b);
+            }
 
             let count = adapter.read(&mut cmd_buf[read_offset..]).await?;
             let read_end = read_offset + count;
